@@ -47,6 +47,11 @@ def gen(tier, seed):
               "    from harness.c04lib import abi_k_mixed", "    return abi_k_mixed(u1, (u1 * 5 + 2) % 11, opt, g)", ""])
     conds.append({"fn": "h_abi_k_mixed", "what": "the per-environment rate constants of a reaction (orders 1 and 2, three environments, entries written in different units) reach the native engine with their physical values, entry by entry",
                   "sig": "c19-abi-rate-constants", "structure": "reactions", "enumerate": True, "viol": "the rate-constant vector handed to the engine is not the per-environment constants of the reactions"})
+    add("digit_labels", "c19-stoichiometry", "digit_labels_ok(k, c1, c2, spaced)", ["pre: 0 <= k <= 3 and 1 <= c1 <= 3 and 1 <= c2 <= 2 and 0 <= spaced <= 1"],
+        "species labels that START with a digit (3PG, 13BPG, 2, 12, 2x, 1A): the coefficient is the leading integer separated from the label by a blank, a term without such a blank is a label; "
+        "stoichiometry vectors, order, print -> parse (from text and from the dictionary form)", "k: int, c1: int, c2: int, spaced: int",
+        viol="the leading digits of a species label are read as a coefficient")
+    conds[-1]["enumerate"] = True
     add("K_dict_units", "c19-K", "K_dict_units(f1, f2, 'ABG'[u])", ["pre: 0 <= f1 <= 3 and 0 <= f2 <= 3 and 0 <= u <= 2"],
         "per-environment constants written with their own units (M-1.s-1, µm3/molecule/s, mM-1.min-1, bare; min-1, ms-1, h-1, bare) under 3 reaction systems: every K[e] is the physical ratio kf[e]/kr[e], "
         "equal to the scalar form's K for the same constants and to the ratio of the split halves' constants", "f1: int, f2: int, u: int",
